@@ -27,6 +27,37 @@ THEOREMS = ["C25_constants_never_written", "C25_borrowed_inputs_never_written", 
             "C25_run_is_function", "C25_runs_independent", "C25_prop_ok_reflect", "C25_nonvacuous"]
 
 
+def one_pass(ctx, name, cases, agree, prop_ok, show, shard, fn_name, classify=None):
+    """Evaluate the informational model-agreement function and the property oracle in ONE Coq pass
+    over all cases (case terms are large), then hand only the cases that fail the oracle to
+    ctx.correspond (which alarms, classifies known findings and writes replay files).
+    Returns the indices on which the implementation deviates from the deterministic model."""
+    import hashlib
+    dis, pf, err = ctx.coq_eval_cases(GROUP, REQ, [c["term"] for c in cases], agree, prop_ok, shard, tag="all")
+    if err:
+        raise vf.CheckerBroken("model evaluation failed for %s: %s" % (name, err))
+    bad = set(pf)
+    for i, c in enumerate(cases):
+        if i in bad:
+            continue  # accounted for by ctx.correspond below
+        ctx.evals += 1
+        t = c.get("tag", "")
+        ctx.hist[t] = ctx.hist.get(t, 0) + 1
+        if not t.startswith("trivial"):
+            ctx.distinct.add(hashlib.sha1(c["input"].encode()).hexdigest())
+    for c in cases[:3]:
+        if len(ctx.samples) < 12:
+            ctx.samples.append({"check": name, "input": c["input"][:400], "tag": c.get("tag", "")})
+    ctx.log("correspondence %s: %d cases, %d fail the property oracle, %d deviate from the deterministic model"
+            % (name, len(cases), len(pf), len(dis)))
+    if pf:
+        ctx.correspond(name, GROUP, REQ, [cases[i] for i in pf], classify=classify, agree=prop_ok, prop_ok=prop_ok,
+                       show=show, shard=shard, fn_name=fn_name)
+    else:
+        ctx.corr.append({"name": name, "cases": len(cases), "disagree": 0, "property_failures": 0})
+    return dis
+
+
 def main(ctx):
     ctx.rule = ("seeded random DAGs (1..10 test operators, all in-place capable, mostly buffer-overwriting) over 1..4 inputs and 0..2 "
                 "constants, tensors of 1..40 i32; run inputs / constants requested as outputs in half of the cases; 7 runs per case on one "
@@ -40,9 +71,8 @@ def main(ctx):
     bindir = ctx.harness(GROUP, profile="release", bins=["c25"])
     cases = ctx.gen_exec(bindir, "c25", ctx.n(250, 5000), inputs=ctx.replay_inputs())
     oracle = "(fun c => prop_ok25 c && prop_ok c)"
-    ctx.correspond("Graph::run-repeated", GROUP, REQ, cases, agree=oracle, prop_ok=oracle, show="show",
-                   shard=40, fn_name="Exec.ModelTestOps.prop_ok25 (snapshots, run-twice equality, naive_eval)")
-    dis, _, err = ctx.coq_eval_cases(GROUP, REQ, [c["term"] for c in cases], "agree", "prop_ok", 40, tag="det")
-    ctx.extra["executor_model_disagreements"] = (len(dis) if not err else "evaluation error: " + str(err)[:300])
+    dis = one_pass(ctx, "Graph::run-repeated", cases, "agree", oracle, "show", 40,
+                   "Exec.ModelTestOps.prop_ok25 (snapshots, run-twice equality, naive_eval)")
+    ctx.extra["executor_model_disagreements"] = len(dis)
     if failed and not ctx.violations:
         ctx.proof_broken(failed, "all correspondence cases of this run")
